@@ -74,9 +74,12 @@ theorem selfBounds_chunk {src : Source} {cs : Int} {seq : List Char} (hp : src.p
     (hb : src.bounds = none) : selfBounds src = some (cs, cs + (seq.length : Int)) := by
   unfold selfBounds; rw [hb, hp]
 
+theorem subsetParentG_none (fixB fixC : Bool) (src : Source) (hp : src.par = .none) (start stop : Int) :
+    subsetParentG fixB fixC src start stop = .ok .none := by
+  unfold subsetParentG; rw [hp]; rfl
+
 theorem subsetParent_none (src : Source) (hp : src.par = .none) (start stop : Int) :
-    subsetParent src start stop = .ok .none := by
-  unfold subsetParent; rw [hp]; rfl
+    subsetParent src start stop = .ok .none := subsetParentG_none _ _ src hp start stop
 
 theorem mkChunk_ok (start stop : Int) (seq : List Char) (h0 : 0 ≤ start) (h1 : start ≤ stop)
     (h2 : stop - start = seq.length) : mkChunk start stop seq = .ok (.chunk start stop seq) := by
@@ -85,70 +88,147 @@ theorem mkChunk_ok (start stop : Int) (seq : List Char) (h0 : 0 ≤ start) (h1 :
   simp only [this, not_true_eq_false, if_false, h2, ne_eq]
   rfl
 
-/-- whole-chromosome source: the new parent is the chromosome stretch `[start, stop)` (or the unchanged parent) -/
-theorem subsetParent_whole (src : Source) (seq : List Char) (hp : src.par = .whole seq) (hb : src.bounds = none)
-    (start stop : Int) (h : 0 ≤ start ∧ start < stop ∧ stop ≤ seq.length) :
-    subsetParent src start stop =
+/-- whole-chromosome source: the new parent is the chromosome stretch `[start, stop)` (or the unchanged parent) —
+    for the code as it is and with the candidate repairs alike -/
+theorem subsetParentG_whole (fixB fixC : Bool) (src : Source) (seq : List Char) (hp : src.par = .whole seq)
+    (hb : src.bounds = none) (start stop : Int) (h : 0 ≤ start ∧ start < stop ∧ stop ≤ seq.length) :
+    subsetParentG fixB fixC src start stop =
       .ok (if start = 0 ∧ stop = seq.length then .whole seq else .chunk start stop (slice seq start stop)) := by
-  unfold subsetParent
+  unfold subsetParentG
   rw [hp]
   have hne : ¬ start = stop := by omega
-  simp only [hne, if_false, needBounds_of (selfBounds_whole hp hb), bind, Except.bind, pure, Except.pure]
+  simp only [hne, if_false, Par.hasSeq, Bool.true_eq_false, and_false, needBounds_of (selfBounds_whole hp hb), bind,
+    Except.bind, pure, Except.pure]
   by_cases hid : start = 0 ∧ stop = (seq.length : Int)
   · simp only [hid, and_self, if_true]; rfl
   · simp only [hid, if_false, hb, Option.isSome_none, Bool.false_eq_true, and_false, Par.isChunk, false_and]
     rw [p2r_in 0 seq.length start (by omega)]
     simp only []
-    by_cases hl : stop = (seq.length : Int)
-    · simp only [hl, if_true]
-      rw [p2r_in 0 seq.length (seq.length - 1) (by omega)]
+    have e2 : start - 0 = start := by omega
+    cases fixC with
+    | true =>
+      simp only [if_true]
+      rw [p2r_in 0 seq.length (stop - 1) (by omega)]
       simp only []
-      have e1 : (seq.length : Int) - 1 - 0 + 1 = seq.length := by omega
-      have e2 : start - 0 = start := by omega
+      have e1 : stop - 1 - 0 + 1 = stop := by omega
       rw [e1, e2]
       exact mkChunk_ok _ _ _ (by omega) (by omega) (by rw [slice_length _ _ _ (by omega) (by omega) (by omega)])
-    · simp only [hl, if_false]
-      rw [p2r_in 0 seq.length stop (by omega)]
-      simp only []
-      have e1 : stop - 0 = stop := by omega
-      have e2 : start - 0 = start := by omega
-      rw [e1, e2]
-      exact mkChunk_ok _ _ _ (by omega) (by omega) (by rw [slice_length _ _ _ (by omega) (by omega) (by omega)])
+    | false =>
+      simp only [Bool.false_eq_true, if_false]
+      by_cases hl : stop = (seq.length : Int)
+      · simp only [hl, if_true]
+        rw [p2r_in 0 seq.length (seq.length - 1) (by omega)]
+        simp only []
+        have e1 : (seq.length : Int) - 1 - 0 + 1 = seq.length := by omega
+        rw [e1, e2]
+        exact mkChunk_ok _ _ _ (by omega) (by omega) (by rw [slice_length _ _ _ (by omega) (by omega) (by omega)])
+      · simp only [hl, if_false]
+        rw [p2r_in 0 seq.length stop (by omega)]
+        simp only []
+        have e1 : stop - 0 = stop := by omega
+        rw [e1, e2]
+        exact mkChunk_ok _ _ _ (by omega) (by omega) (by rw [slice_length _ _ _ (by omega) (by omega) (by omega)])
 
-/-- already-chunked source, range inside the chunk -/
+theorem subsetParent_whole (src : Source) (seq : List Char) (hp : src.par = .whole seq) (hb : src.bounds = none)
+    (start stop : Int) (h : 0 ≤ start ∧ start < stop ∧ stop ≤ seq.length) :
+    subsetParent src start stop =
+      .ok (if start = 0 ∧ stop = seq.length then .whole seq else .chunk start stop (slice seq start stop)) :=
+  subsetParentG_whole _ _ src seq hp hb start stop h
+
+/-- already-chunked source, range inside the chunk — as coded and repaired alike -/
+theorem subsetParentG_chunk (fixB fixC : Bool) (src : Source) (cs : Int) (seq : List Char)
+    (hp : src.par = .chunk cs seq) (hb : src.bounds = none) (hcs : 0 ≤ cs) (start stop : Int)
+    (h : cs ≤ start ∧ start < stop ∧ stop ≤ cs + seq.length) :
+    subsetParentG fixB fixC src start stop =
+      .ok (if start = cs ∧ stop = cs + seq.length then .chunk cs (cs + seq.length) seq
+           else .chunk start stop (slice seq (start - cs) (stop - cs))) := by
+  unfold subsetParentG
+  rw [hp]
+  have hne : ¬ start = stop := by omega
+  simp only [hne, if_false, Par.hasSeq, Bool.true_eq_false, and_false, needBounds_of (selfBounds_chunk hp hb), bind,
+    Except.bind, pure, Except.pure]
+  by_cases hid : start = cs ∧ stop = cs + (seq.length : Int)
+  · simp only [hid, and_self, if_true]; rfl
+  · have hlt : ¬ start < cs := by omega
+    have hgt : ¬ stop > cs + (seq.length : Int) := by omega
+    simp only [hid, if_false, hb, Option.isSome_none, Bool.false_eq_true, and_false, Par.isChunk, true_and, hlt]
+    rw [p2r_in cs (cs + seq.length) start (by omega)]
+    simp only []
+    cases fixC with
+    | true =>
+      simp only [if_true, hgt, if_false]
+      rw [p2r_in cs (cs + seq.length) (stop - 1) (by omega)]
+      simp only []
+      have e1 : stop - 1 - cs + 1 = stop - cs := by omega
+      rw [e1]
+      exact mkChunk_ok _ _ _ (by omega) (by omega) (by rw [slice_length _ _ _ (by omega) (by omega) (by omega)]; omega)
+    | false =>
+      simp only [Bool.false_eq_true, if_false]
+      by_cases hl : stop = cs + (seq.length : Int)
+      · simp only [hl, if_true]
+        rw [p2r_in cs (cs + seq.length) (cs + seq.length - 1) (by omega)]
+        simp only []
+        have e1 : cs + (seq.length : Int) - 1 - cs + 1 = cs + seq.length - cs := by omega
+        rw [e1]
+        exact mkChunk_ok _ _ _ (by omega) (by omega)
+          (by rw [slice_length _ _ _ (by omega) (by omega) (by omega)]; omega)
+      · simp only [hl, if_false, hgt]
+        rw [p2r_in cs (cs + seq.length) stop (by omega)]
+        simp only []
+        exact mkChunk_ok _ _ _ (by omega) (by omega)
+          (by rw [slice_length _ _ _ (by omega) (by omega) (by omega)]; omega)
+
 theorem subsetParent_chunk (src : Source) (cs : Int) (seq : List Char) (hp : src.par = .chunk cs seq)
     (hb : src.bounds = none) (hcs : 0 ≤ cs) (start stop : Int)
     (h : cs ≤ start ∧ start < stop ∧ stop ≤ cs + seq.length) :
     subsetParent src start stop =
       .ok (if start = cs ∧ stop = cs + seq.length then .chunk cs (cs + seq.length) seq
-           else .chunk start stop (slice seq (start - cs) (stop - cs))) := by
-  unfold subsetParent
+           else .chunk start stop (slice seq (start - cs) (stop - cs))) :=
+  subsetParentG_chunk _ _ src cs seq hp hb hcs start stop h
+
+/-- REPAIRED F-C09c (`fixC = true`): a range reaching beyond the chunk on either side is clamped to the chunk —
+    the new parent is the stretch `[max start cs, min stop ce)`; nothing is lost at the chunk end. -/
+theorem subsetParentG_chunk_clamped (fixB : Bool) (src : Source) (cs : Int) (seq : List Char)
+    (hp : src.par = .chunk cs seq) (hb : src.bounds = none) (hcs : 0 ≤ cs) (start stop : Int)
+    (h : max start cs < min stop (cs + seq.length))
+    (hnid : ¬ (start = cs ∧ stop = cs + seq.length)) :
+    subsetParentG fixB true src start stop =
+      .ok (.chunk (max start cs) (min stop (cs + seq.length))
+            (slice seq (max start cs - cs) (min stop (cs + seq.length) - cs))) := by
+  unfold subsetParentG
   rw [hp]
   have hne : ¬ start = stop := by omega
-  simp only [hne, if_false, needBounds_of (selfBounds_chunk hp hb), bind, Except.bind, pure, Except.pure]
-  by_cases hid : start = cs ∧ stop = cs + (seq.length : Int)
-  · simp only [hid, and_self, if_true]; rfl
-  · have hlt : ¬ start < cs := by omega
-    simp only [hid, if_false, hb, Option.isSome_none, Bool.false_eq_true, and_false, Par.isChunk, true_and, hlt]
-    rw [p2r_in cs (cs + seq.length) start (by omega)]
-    simp only []
-    by_cases hl : stop = cs + (seq.length : Int)
-    · simp only [hl, if_true]
-      rw [p2r_in cs (cs + seq.length) (cs + seq.length - 1) (by omega)]
-      simp only []
-      have e1 : cs + (seq.length : Int) - 1 - cs + 1 = cs + seq.length - cs := by omega
-      rw [e1]
-      exact mkChunk_ok _ _ _ (by omega) (by omega) (by rw [slice_length _ _ _ (by omega) (by omega) (by omega)]; omega)
-    · have hgt : ¬ stop > cs + (seq.length : Int) := by omega
-      simp only [hl, if_false, hgt]
-      rw [p2r_in cs (cs + seq.length) stop (by omega)]
-      simp only []
-      exact mkChunk_ok _ _ _ (by omega) (by omega) (by rw [slice_length _ _ _ (by omega) (by omega) (by omega)]; omega)
+  simp only [hne, if_false, Par.hasSeq, Bool.true_eq_false, and_false, needBounds_of (selfBounds_chunk hp hb), bind,
+    Except.bind, pure, Except.pure]
+  simp only [hnid, if_false, hb, Option.isSome_none, Bool.false_eq_true, and_false, Par.isChunk, true_and, if_true]
+  have e1 : (if start < cs then cs else start) = max start cs := by split <;> omega
+  have e2 : (if stop > cs + (seq.length : Int) then cs + (seq.length : Int) else stop) = min stop (cs + seq.length) := by
+    split <;> omega
+  rw [e1, e2]
+  rw [p2r_in cs (cs + seq.length) (max start cs) (by omega)]
+  simp only []
+  rw [p2r_in cs (cs + seq.length) (min stop (cs + seq.length) - 1) (by omega)]
+  simp only []
+  have e3 : min stop (cs + (seq.length : Int)) - 1 - cs + 1 = min stop (cs + seq.length) - cs := by omega
+  rw [e3]
+  exact mkChunk_ok _ _ _ (by omega) (by omega)
+    (by rw [slice_length _ _ _ (by omega) (by omega) (by omega)]; omega)
 
-end BioCantor.Proofs.Query
+/-- REPAIRED F-C09b (`fixB = true`): a sequence-less parent is handed on unchanged -/
+theorem subsetParentG_noseq (fixC : Bool) (src : Source) (hp : src.par = .noseq) (start stop : Int)
+    (hne : start ≠ stop) : subsetParentG true fixC src start stop = .ok .noseq := by
+  unfold subsetParentG
+  rw [hp]
+  simp only [hne, if_false, Par.hasSeq, and_self, if_true]
+  rfl
 
-namespace BioCantor.Proofs.Query
-open BioCantor BioCantor.Spec BioCantor.Spec.Query BioCantor.Model.Query BioCantor.GenP BioCantor.Gen
+/-- for `start = stop` every version drops a sequence-less parent ("a now null interval") -/
+theorem subsetParentG_noseq_null (fixB fixC : Bool) (src : Source) (hp : src.par = .noseq) (start : Int) :
+    subsetParentG fixB fixC src start start = .ok .none := by
+  unfold subsetParentG
+  rw [hp]
+  simp only [if_true]
+  rfl
 
 /-! ### the new parent carries the source's sequence restricted to the new bounds -/
 
